@@ -106,10 +106,25 @@ func (m p2bidonly) BuilderBid(context.Context, *builderapi.BuilderBidOpts) (*bui
 	return m.bidAnswer()
 }
 
+// runRelays: the auction runs in the worker process (p10_bids_test.go): the strategy asks each relay in
+// a goroutine of its own, where a panic cannot be recovered; a worker that dies is the observed panic.
 func runRelays(t *testing.T, in []RelayIn) result {
+	obs := workerCall(t, workerReq{Relays: in})
 	var panicked bool
 	var msg string
 	var all []uint64
+	for _, o := range obs {
+		if o.Panic {
+			panicked, msg = true, o.Message
+		} else {
+			all = o.All
+		}
+	}
+	return relaysResult(in, panicked, msg, all)
+}
+
+// runRelaysReal: one BuilderBid of a fresh strategy over the relay list (worker side).
+func runRelaysReal(t *testing.T, in []RelayIn) (panicked bool, msg string, all []uint64) {
 	trace := len(in) > 0 && in[0].Trace
 	synctest.Test(t, func(t *testing.T) {
 		ctx, cancel := context.WithCancel(context.Background())
@@ -157,7 +172,10 @@ func runRelays(t *testing.T, in []RelayIn) result {
 		synctest.Wait()
 	})
 	util.ResetBuilderClientsC09()
+	return panicked, msg, all
+}
 
+func relaysResult(in []RelayIn, panicked bool, msg string, all []uint64) result {
 	items := make([]string, len(in))
 	res := result{}
 	for i, r := range in {
